@@ -4,7 +4,7 @@
 //               X <id> <exts>                raw extension list through the real YAML->domain conversion is
 //                                            exercised by mode "resolve"; here X checks matches on the raw set
 //   result:     <id> tmp=<0|1|P> inwd=<0|1|P> ext=<0|1|P> relevant=<0|1|P>
-use super::util::*;
+use super::super::util::*;
 use crate::domain;
 use crate::engine::verif_access::verif_is_tmp_editor_file;
 use crate::work_dir;
